@@ -344,11 +344,30 @@ inline std::string take_asan_report() { return std::string(); }
 // ---------------------------------------------------------------------------
 // Runner
 // ---------------------------------------------------------------------------
+// CPU seconds (user+system) consumed so far by process pid, from /proc (so that a loaded machine does not look like a hang)
+inline double proc_cpu_s(pid_t pid)
+{
+   char path[64];
+   snprintf(path, sizeof path, "/proc/%d/stat", (int)pid);
+   FILE* f = fopen(path, "r");
+   if(!f) return -1;
+   char buf[1024];
+   size_t n = fread(buf, 1, sizeof buf - 1, f);
+   fclose(f);
+   buf[n] = 0;
+   char* p = strrchr(buf, ')');
+   if(!p) return -1;
+   unsigned long ut = 0, st = 0;
+   // fields after ')': state ppid pgrp session tty tpgid flags minflt cminflt majflt cmajflt utime stime
+   if(sscanf(p + 1, " %*c %*d %*d %*d %*d %*d %*u %*u %*u %*u %*u %lu %lu", &ut, &st) != 2) return -1;
+   return double(ut + st) / sysconf(_SC_CLK_TCK);
+}
+
 struct RunOpts
 {
    int workers = 16;
    double deadline = 0;          // absolute now_s() value; 0 = none
-   double watchdog_s = 60;       // wall seconds a single case may take
+   double watchdog_s = 60;       // CPU seconds a single case may take (wall limit: 15x that)
    std::vector<int> perturb = {85};   // one pass per entry (mallopt M_PERTURB value; 0 = off)
    std::string tmpdir;
    uint64_t shuffle_seed = 0;    // rotates visiting order only
@@ -394,6 +413,7 @@ inline RunResult run_parallel(uint64_t N, const CaseFn& fn, const DescFn& descri
    std::vector<int> gen(W, 0);
    std::vector<uint64_t> lastSeq(W, 0);
    std::vector<double> lastChange(W, now_s());
+   std::vector<double> lastCpu(W, 0.0);
    std::vector<bool> active(W, true);
    fflush(stdout);
    fflush(stderr);
@@ -483,6 +503,7 @@ inline RunResult run_parallel(uint64_t N, const CaseFn& fn, const DescFn& descri
       }
       pid[w] = p;
       lastChange[w] = now_s();
+      lastCpu[w] = 0;
       lastSeq[w] = shm[w].seq;
    };
 
@@ -502,8 +523,9 @@ inline RunResult run_parallel(uint64_t N, const CaseFn& fn, const DescFn& descri
             died = true;
          else
          {
-            if(shm[w].seq != lastSeq[w]) { lastSeq[w] = shm[w].seq; lastChange[w] = now_s(); }
-            else if(now_s() - lastChange[w] > opt.watchdog_s)
+            if(shm[w].seq != lastSeq[w]) { lastSeq[w] = shm[w].seq; lastChange[w] = now_s(); lastCpu[w] = proc_cpu_s(pid[w]); }
+            else if(now_s() - lastChange[w] > opt.watchdog_s &&
+                    (proc_cpu_s(pid[w]) - lastCpu[w] > opt.watchdog_s || now_s() - lastChange[w] > 15 * opt.watchdog_s))
             {
                kill(pid[w], SIGKILL);
                waitpid(pid[w], &st, 0);
@@ -553,7 +575,7 @@ inline RunResult run_parallel(uint64_t N, const CaseFn& fn, const DescFn& descri
          if(hang)
          {
             sig = "hang" + (sigsuffix ? sigsuffix(idx, sub) : std::string());
-            detail = "no progress for " + std::to_string((int)opt.watchdog_s) + " s";
+            detail = "no progress for " + std::to_string((int)opt.watchdog_s) + " CPU-seconds";
             rr.hangs++;
          }
          else
